@@ -26,6 +26,8 @@ RULE = ("unifier: patterns over sums, products, quotients, powers, calls, subscr
         "reported binding re-instantiated and compared.  distinct = typed key of (pattern, target); "
         "non-trivial = pattern has >=1 operator node.")
 ASSUMPTIONS = [
+    "a one-element tuple index and the bare index are the same subscript for the unifier (its "
+    "map_subscript documents unpacking them); instantiations are compared after that unpacking",
     "arity <= 3 and few repeated constants bound the factorial search of the AC unifier",
     "replacement rules use a result that cannot be matched again, so replace_all performs one "
     "rewrite per occurrence and the law can be checked per callback invocation",
@@ -151,6 +153,20 @@ def replace_exact(e, old, new):
     return e, 0
 
 
+def _unwrap1(e):
+    """a[(k,)] read as a[k]: the unifier documents that it unpacks one-element index tuples"""
+    if isinstance(e, p.Subscript):
+        idx = e.index
+        while isinstance(idx, tuple) and len(idx) == 1:
+            idx = idx[0]
+        return p.Subscript(_unwrap1(e.aggregate), _unwrap1(idx))
+    if isinstance(e, p.Expression) and normal.is_expr_dataclass(type(e)):
+        return type(e)(*[_unwrap1(getattr(e, f.name)) for f in dataclasses.fields(e)])
+    if isinstance(e, tuple):
+        return tuple(_unwrap1(c) for c in e)
+    return e
+
+
 def symmetric_copies(pat):
     """product over the pattern's commutative nodes of prod(m!) for each operand occurring m
     times: the number of identical records the unifier returns per distinct one"""
@@ -197,7 +213,7 @@ def c_unify(ctx, case):
         ctx.fail("C16.unify", case, "no-record-for-renaming",
                  f"target {tgt} is pattern {pat} under an injective renaming of {sorted(declared)} "
                  f"(operands shuffled) but no unification record was returned")
-    want = normal.ac_key(tgt)
+    want = normal.ac_key(_unwrap1(tgt))
     judged = set()
     for rec in recs:
         ctx.count("records")
@@ -223,7 +239,7 @@ def c_unify(ctx, case):
             binds[lhs.name] = rhs
         else:
             inst = refsub(pat, list(binds.items()))
-            if normal.ac_key(inst) != want:
+            if normal.ac_key(_unwrap1(inst)) != want:
                 ctx.fail("C16.unify", case, f"unsound:{mode}",
                          f"pattern {pat} with record {rec} instantiates to {inst}, which is not the "
                          f"target {tgt} (up to reordering/regrouping of sums and products)")
@@ -592,7 +608,9 @@ def replace_one_occurrence(rng, e):
 
 def per_occurrence(rng, e):
     if isinstance(e, p.Variable) and e.name in "pqr":
-        return rng.choice([e, e, p.Variable(rng.choice("pqr")), rng.choice(TV)])
+        # (values that are FALSE in a boolean context included: a variable bound to 0 is bound)
+        return rng.choice([e, e, p.Variable(rng.choice("pqr")), rng.choice(TV), 0, 0, 5,
+                           p.Product((0, rng.choice(TV))), p.Quotient(0, rng.choice(TV))])
     if isinstance(e, p.Expression) and normal.is_expr_dataclass(type(e)):
         import dataclasses
         return type(e)(*[per_occurrence(rng, getattr(e, f.name)) for f in dataclasses.fields(e)])
@@ -617,7 +635,9 @@ def workload(ctx):
             if clash:
                 ctx.count("targets_reusing_candidate_names")
             if mode == "inst":
-                sub = [(v.name, gen(rng, 2, TVx)) for v in PV]
+                sub = [(v.name, gen(rng, 2, TVx) if rng.random() < 0.8 else
+                        rng.choice([0, 0, p.Product((0, TV[0])), p.Quotient(0, TV[1])]))
+                       for v in PV]
                 tgt = shuffle(rng, refsub(pat, sub))
             elif mode == "rename":
                 names = rng.sample(["u1", "u2", "u3", "x", "y"] + (["p", "q", "r"] if clash else []), 3)
